@@ -362,7 +362,7 @@ func (e *emitter) call(call *ast.CallExpr) []emNode {
 		if rx := recvOf(call); rx != nil && fi.Info.Selections[ast.Unparen(call.Fun).(*ast.SelectorExpr)] != nil {
 			r = e.sym(rx) + "."
 		}
-		return []emNode{&emEff{"CALL " + r + cf.Obj.Name() + "(" + strings.Join(args, ",") + ")"}}
+		return []emNode{&emEff{"CALL " + r + cf.Name[strings.LastIndex(cf.Name, ".")+1:] + "(" + strings.Join(args, ",") + ")"}}
 	}
 	// ordering-relevant library effects
 	switch name {
@@ -617,7 +617,13 @@ func (e *emitter) symd(x ast.Expr, d int) string {
 		}
 		fn := ""
 		if sel, ok := ast.Unparen(x.Fun).(*ast.SelectorExpr); ok && fi.Info.Selections[sel] != nil {
-			fn = e.symd(sel.X, d+1) + "." + sel.Sel.Name
+			mn := sel.Sel.Name
+			if f := fi.callee(x); f != nil {
+				if a, ok := funcAlias[f]; ok {
+					mn = a[strings.LastIndex(a, ".")+1:]
+				}
+			}
+			fn = e.symd(sel.X, d+1) + "." + mn
 		} else if f := fi.callee(x); f != nil {
 			pk := ""
 			if f.Pkg() != nil {
